@@ -67,6 +67,7 @@ func C05(c *core.Ctx) {
 		c05halfdead(c)
 		c05sched(c, dev)
 		c05bystander(c, dev)
+		c05handshakeStall(c, dev)
 		return
 	}
 	streams := codec.HostileStreams(c.Thorough())
@@ -179,6 +180,7 @@ func C05(c *core.Ctx) {
 		return
 	}
 	c05bystander(c, dev)
+	c05handshakeStall(c, dev)
 }
 
 // c05sched: the attacker's teardown races the fan-out of the witness' publishes to it.
